@@ -462,6 +462,10 @@ func c13(r *core.Run) {
 					if a.Type().String() == "int64" && isBase(a) {
 						baseIdx = i + off
 					}
+					// the base handed over as the coin built from it (NewInt64Coin(denom, minted))
+					if cc, isCall := a.(*ssa.Call); isCall && strings.HasSuffix(core.CalleeFullName(cc), "types.NewInt64Coin") && len(cc.Call.Args) == 2 && isBase(cc.Call.Args[1]) {
+						baseIdx = i + off
+					}
 				}
 				// a dispatcher: a callee that itself calls several functions moving coins
 				sub := 0
